@@ -309,7 +309,66 @@ func yamlStr(s string) *yaml3.Node {
 	return y
 }
 
-func toYAML(n *node, depth int) *yaml3.Node {
+// Response-code keys. Real YAML specs write them unquoted (`200:`, `404:`,
+// `4XX:`), which makes `200` an !!int key in YAML while it is a string in JSON;
+// ogen's front end accepts the int as the response code, so both spellings
+// still denote the same spec. In the "plain code keys" style the keys of a
+// `responses` mapping that are canonical decimal integers of at most 9 digits
+// are written plain (the read-back check compares keys by their scalar text);
+// anything whose text would not survive (0200, 1e2, 99999999999999999999) stays quoted.
+var (
+	plainIntKey   = regexp.MustCompile(`^(0|[1-9][0-9]{0,8})$`)
+	plainRangeKey = regexp.MustCompile(`^[1-9]XX$`)
+	codeLikeKey   = regexp.MustCompile(`^([0-9]{3}|[1-9]XX|default)$`)
+)
+
+func yamlKey(k, mapKey string, plainCodes bool) *yaml3.Node {
+	if plainCodes && mapKey == "responses" {
+		switch {
+		case plainIntKey.MatchString(k):
+			return &yaml3.Node{Kind: yaml3.ScalarNode, Value: k} // untagged plain scalar: resolves to !!int
+		case plainRangeKey.MatchString(k):
+			return &yaml3.Node{Kind: yaml3.ScalarNode, Tag: "!!str", Value: k} // plain, a string in every YAML version
+		}
+	}
+	return yamlStr(k)
+}
+
+// hasPlainIntKey reports whether the plain style writes at least one !!int key
+// in the tree, and whether one sits on the chain root→path (inclusive).
+func hasPlainIntKey(root *node, path []int) (any, onChain bool) {
+	var walk func(n *node, selfKey string)
+	walk = func(n *node, selfKey string) {
+		for i, c := range n.Kids {
+			k := ""
+			if n.K == kMap {
+				k = n.Keys[i]
+				if selfKey == "responses" && plainIntKey.MatchString(k) {
+					any = true
+				}
+			}
+			walk(c, k)
+		}
+	}
+	walk(root, "")
+	n, selfKey := root, ""
+	for _, i := range path {
+		if n == nil || i < 0 || i >= len(n.Kids) {
+			break
+		}
+		k := ""
+		if n.K == kMap {
+			k = n.Keys[i]
+			if selfKey == "responses" && plainIntKey.MatchString(k) {
+				onChain = true
+			}
+		}
+		n, selfKey = n.Kids[i], k
+	}
+	return any, onChain
+}
+
+func toYAML(n *node, depth int, selfKey string, plainCodes bool) *yaml3.Node {
 	switch n.K {
 	case kMap:
 		y := &yaml3.Node{Kind: yaml3.MappingNode, Tag: "!!map"}
@@ -317,7 +376,7 @@ func toYAML(n *node, depth int) *yaml3.Node {
 			y.Style = yaml3.FlowStyle
 		}
 		for i, k := range n.Keys {
-			y.Content = append(y.Content, yamlStr(k), toYAML(n.Kids[i], depth+1))
+			y.Content = append(y.Content, yamlKey(k, selfKey, plainCodes), toYAML(n.Kids[i], depth+1, k, plainCodes))
 		}
 		return y
 	case kSeq:
@@ -326,7 +385,7 @@ func toYAML(n *node, depth int) *yaml3.Node {
 			y.Style = yaml3.FlowStyle
 		}
 		for _, c := range n.Kids {
-			y.Content = append(y.Content, toYAML(c, depth+1))
+			y.Content = append(y.Content, toYAML(c, depth+1, "", plainCodes))
 		}
 		return y
 	case kStr:
@@ -337,11 +396,13 @@ func toYAML(n *node, depth int) *yaml3.Node {
 	}
 }
 
-func emitYAML(n *node) ([]byte, error) {
+// emitYAML writes the tree as block YAML; plainCodes selects the style in which
+// response-code keys are unquoted.
+func emitYAML(n *node, plainCodes bool) ([]byte, error) {
 	var b bytes.Buffer
 	e := yaml3.NewEncoder(&b)
 	e.SetIndent(2)
-	if err := e.Encode(toYAML(n, 0)); err != nil {
+	if err := e.Encode(toYAML(n, 0, "", plainCodes)); err != nil {
 		return nil, err
 	}
 	_ = e.Close()
@@ -386,6 +447,8 @@ func indexDoc(text []byte, tree *node) (*docIndex, error) {
 				return fmt.Errorf("at %v: want mapping of %d, got kind %d with %d", path, len(n.Kids), y.Kind, len(y.Content)/2)
 			}
 			for i := range n.Kids {
+				// keys are compared by their scalar text: an unquoted 200 is an
+				// !!int key in YAML and the string "200" in JSON, the same response code
 				k := y.Content[2*i]
 				if k.Kind != yaml3.ScalarNode || k.Value != n.Keys[i] {
 					return fmt.Errorf("at %v: key %d is %q, want %q", path, i, k.Value, n.Keys[i])
